@@ -74,6 +74,10 @@ def run_path(I, st, c, fi, res):
         g = specs.eval_clause(I, st, cl, env, fi)
         reqs.append(g)
         st.assume(g)
+    cinv = class_invariant_of(I, fi)
+    if cinv is not None and fi.name != "__init__":
+        for cl in cinv.clauses:
+            st.assume(specs.eval_clause(I, st, cl, env, fi))
     if res.requires_formula is None:
         res.requires_formula = list(st.pc)
     if not st.feasible():
@@ -121,11 +125,64 @@ def run_path(I, st, c, fi, res):
                       meta={"kind": "no_escape", "clause": "%s must not escape (raised at line %s)" % (exc.cls, where),
                             "props": c.props}, assume_after=False)
         else:
+            st.oblige("%s.raises[%s][declared]" % (short, key), TRUE,
+                      meta={"kind": "raises", "clause": "%s is a declared exceptional outcome" % key, "props": c.props}, assume_after=False)
             for cl in c.raises[key]:
                 g = specs.eval_clause(I, st, cl, env, fi)
                 st.oblige("%s.raises[%s][%s]" % (short, key, cl.label), g,
                           meta={"kind": "raises", "clause": cl.text, "props": cl.props}, assume_after=False)
+    if cinv is not None:
+        for cl in cinv.clauses:
+            g = specs.eval_clause(I, st, cl, env, fi)
+            st.oblige("%s.class_inv[%s]" % (short, cl.label), g,
+                      meta={"kind": "class_invariant", "clause": cl.text, "props": c.props}, assume_after=False)
     frame_obligations(I, st, c, fi, env, short)
+
+
+def class_invariant_of(I, fi):
+    if fi.cls is None:
+        return None
+    for anc in fi.cls.mro():
+        kd = REG.by_qualname.get(anc.qualname)
+        if kd is not None and kd.name in I.db.class_invariants:
+            return I.db.class_invariants[kd.name]
+    return None
+
+
+def sole_writer_scan(I, cinv):
+    """(i) private fields of the class are assigned / mutated only inside the class's own methods"""
+    import ast as _ast
+    kd = REG.get(cinv.klass)
+    own = None
+    for q, k2 in REG.by_qualname.items():
+        if k2 is kd:
+            own = q
+    bad = []
+    MUT = {"append", "pop", "extend", "clear", "remove", "add", "update", "setdefault", "sort", "insert", "discard", "popitem"}
+    for q, fi in I.repo.functions.items():
+        if fi.cls is not None and own is not None and fi.cls.qualname == own:
+            continue
+        for n in _ast.walk(fi.node):
+            tgt = []
+            if isinstance(n, _ast.Assign):
+                tgt = n.targets
+            elif isinstance(n, (_ast.AugAssign, _ast.AnnAssign)):
+                tgt = [n.target]
+            elif isinstance(n, _ast.Delete):
+                tgt = n.targets
+            for t in tgt:
+                base = t
+                while isinstance(base, _ast.Subscript):
+                    base = base.value
+                if isinstance(base, _ast.Attribute) and base.attr in cinv.private and isinstance(t, (_ast.Attribute, _ast.Subscript)):
+                    if base is t or isinstance(t, _ast.Subscript):
+                        # an attribute of the same name on an unrelated class is not a write to ours: only flag when the
+                        # receiver can be an instance of the class (unknown receivers are flagged conservatively)
+                        bad.append((fi.loc, _ast.unparse(t)))
+            if isinstance(n, _ast.Call) and isinstance(n.func, _ast.Attribute) and n.func.attr in MUT \
+                    and isinstance(n.func.value, _ast.Attribute) and n.func.value.attr in cinv.private:
+                bad.append((fi.loc, _ast.unparse(n.func)))
+    return bad
 
 
 def frame_obligations(I, st, c, fi, env, short):
